@@ -174,6 +174,7 @@ def generate(rng, seed, size):
         forced_style = (not robust) and ei < len(casing.STYLES)
         if forced_style:
             style = casing.STYLES[ei]
+            nvar = max(nvar, 2)
         simple = list(casing.SIMPLE_IDENTS)
         rng.shuffle(simple)
         lifetime = rng.random() < 0.08 and not robust
@@ -188,8 +189,8 @@ def generate(rng, seed, size):
                 # systematic part of the robust corpus: escaped braces in fixed names of every variant kind
                 kind = ["named", "tuple", "unit"][ei % 3]
                 disabled = False
-            if forced_style and vi == 0:
-                ident = ["ÉcranTitre", "ÜberGross", "ÑandúÁgil"][ei % 3]
+            if forced_style and vi in (0, 1):
+                ident = (["ÉcranTitre", "ÜberGross", "ÑandúÁgil"] if vi == 0 else ["Http2", "Ipv6Only", "Sha256Sum"])[ei % 3]
                 if ident in simple:
                     simple.remove(ident)
                 kind = "unit"
@@ -199,7 +200,7 @@ def generate(rng, seed, size):
             brace_name = ["{{literal}}", "a{{b", "}}x{{", "set{{}}", "{{", "}}", "{{0}}", "x{{y}}z", "{{{{"][ei % 9] if forced_braces else None
             if kind == "unit":
                 attrs, canon = gen_fixed_attrs(rng)
-                if forced_style and vi == 0:
+                if forced_style and vi in (0, 1):
                     attrs, canon = [], None
                 if forced_braces:
                     attrs, canon = ["#[strum(to_string = %s)]" % rs(brace_name)], brace_name
